@@ -553,6 +553,12 @@ class RPSpec(Spec):
         self._crit(r, m)
         if m["dim"]:
             m["n"] = T - (m["dim"] - 1) * m["tau"]
+        # sequential ("sparse") RQA: no recurrence matrix is stored, the
+        # line distributions are computed from embedding and threshold
+        if self.name == "RecurrencePlot" and r.random() < 0.25:
+            m["sparse"] = True
+            m["metric"] = "supremum"
+            m["crit"], m["cv"] = "threshold", r.choice((0.3, 0.8, 1.5))
         return m
 
     @staticmethod
@@ -567,6 +573,8 @@ class RPSpec(Spec):
 
     def kw(self, m):
         kw = {m["crit"]: m["cv"], "metric": m["metric"], "silence_level": 3}
+        if m.get("sparse"):
+            kw["sparse_rqa"] = True
         if m.get("dim"):
             kw.update(dim=m["dim"], tau=m["tau"])
         return kw
@@ -625,7 +633,20 @@ class RPSpec(Spec):
         return out
 
     def mutators(self):
-        return self.crit_muts() + [self.emb_mut()]
+        def upd(m, a, obj):
+            m["cv"] = a["v"]
+        # in sequential mode only a fixed threshold is supported; the
+        # public attribute is a handle on it besides set_fixed_threshold
+        attr = Mut("threshold=",
+                   lambda r, m: {"v": r.choice((0.2, 0.5, 1.0, 2.0))},
+                   lambda obj, a, m: setattr(obj, "threshold", a["v"]), upd,
+                   when=lambda m: bool(m.get("sparse")))
+        dense_only = [Mut(mu.name, mu.gen, mu.apply, mu.update, mu.reinit,
+                          when=(lambda m: not m.get("sparse"))
+                          if mu.name != "set_fixed_threshold"
+                          else (lambda m: True))
+                      for mu in self.crit_muts()]
+        return dense_only + [self.emb_mut(), attr]
 
 
 class RNSpec(RPSpec):
